@@ -25,6 +25,7 @@ func main() {
 	single := flag.Int64("single", -1, "baseline mode: execute exactly this bank operation, first and alone")
 	describe := flag.Int64("describe", -1, "print the bank operation with this id and exit")
 	plan := flag.Bool("plan", false, "print the derived run specification and exit")
+	scan := flag.Int("scan", 0, "diagnostics: print depth and largest container of the values of the first N bank operations and of the focus operations")
 	bankLimit := flag.Uint64("bank", 0, "use only the first N operations of the bank (0: all)")
 	limitAS := flag.Uint64("as-limit-mb", 0, "address space limit in MiB (0: none)")
 	cpuprof := flag.String("cpuprofile", "", "write a CPU profile (diagnostics only)")
@@ -42,6 +43,42 @@ func main() {
 	c := model.Generate(*corpusSeed)
 	var spec *world.RunSpec
 	switch {
+	case *scan > 0:
+		b := world.NewBank(*prof, c)
+		deep, big := map[int]int{}, 0
+		look := func(id uint64) {
+			op := b.Op(id)
+			sd := c.Get(op.Type)
+			if sd == nil || sd.Rejected() || sd.PanicInit {
+				return
+			}
+			w := model.GenValue(c, sd, op.VSeed, model.VOpt{Budget: op.Budget, Foreign: op.Foreign})
+			d := w.Depth()
+			switch {
+			case d > 1024:
+				deep[1024]++
+			case d > 500:
+				deep[500]++
+			case d > 60:
+				deep[60]++
+			case d > 32:
+				deep[32]++
+			}
+			if n := len(w.Bytes()); n > 40000 {
+				big++
+			}
+		}
+		for id := uint64(0); id < uint64(*scan); id++ {
+			look(id)
+		}
+		nv := len(c.Valid())
+		for t := 0; t < nv; t++ {
+			for v := uint64(0); v < world.FocusVariants; v++ {
+				look(world.FocusBase + uint64(t)*world.FocusVariants + v)
+			}
+		}
+		fmt.Println("values deeper than 32/60/500/1024 levels:", deep[32], deep[60], deep[500], deep[1024], " messages over 40000 bytes:", big, " of", *scan, "+", nv*int(world.FocusVariants), "operations")
+		return
 	case *describe >= 0:
 		op := world.NewBank(*prof, c).Op(uint64(*describe))
 		b, _ := json.Marshal(op)
